@@ -102,10 +102,10 @@ def startsWith (l p : List UInt8) : Bool :=
 
 /-- `fill_class`: `name` is the text after `[:`.  Walk `ctype_list`; at the first name that is
 a prefix, demand `:]` after it. -/
-def fillClass (icase : Bool) (bm : Nat) (name : List UInt8) : List String → Except Code (Nat × List UInt8)
+def fillClass (icase : Bool) (bm : Nat) (name : List UInt8) :
+    List (String × List UInt8) → Except Code (Nat × List UInt8)
   | [] => if name.isEmpty then .error .ebrack else .error .ectype
-  | cn :: more =>
-    let cb := cn.toUTF8.toList
+  | (cn, cb) :: more =>
     if startsWith name cb then
       let rest := name.drop cb.length
       match rest with
@@ -129,7 +129,7 @@ def getMapToken (icase : Bool) (bm : Nat) (start : Bool) : List UInt8 → Except
   | 91 :: t =>                                        -- '['
       match t with
       | 58 :: t2 =>                                   -- "[:"
-          match fillClass icase bm t2 Gen.C04.classNames with
+          match fillClass icase bm t2 Gen.C04.classTable with
           | .ok (bm', rest) => .ok (.other, bm', rest)
           | .error c => .error c
       | 46 :: _ => .error .badpat                     -- "[."
@@ -160,9 +160,8 @@ def classLoop (icase : Bool) : Nat → Nat → Nat → Bool → Bool → List UI
 
 /-- `op_class`: input is the text after `[` -/
 def parseClass (fl : PFlags) (s : List UInt8) : Except Code (Nat × List UInt8) :=
-  let (neg, s1) := match s with
-    | 94 :: t => (true, t)                            -- '^'
-    | _ => (false, s)
+  let neg := s.head? == some 94                       -- '^'
+  let s1 := if neg then s.tail else s
   let bm0 := if neg && fl.newline then setBit 0 10 else 0
   match classLoop fl.icase (s1.length + 1) bm0 0 false true s1 with
   | .error c => .error c
@@ -453,14 +452,103 @@ def quantB (m : Nat) (n : Option Nat) : List UInt8 :=
   if m = 0 ∧ n = none then [42]
   else [92, 123] ++ countBody m n ++ [92, 125]
 
-/-- ERE text of a tree.  Bracket expressions are rendered by the generator from source text,
-not from bitmaps; here `cls` renders as the two-byte marker `[]` (an unterminated bracket),
-so trees containing `cls` are outside `wfE`. -/
+/-! ### bracket expressions from bitmaps -/
+
+/-- bitmap of a named class without flags -/
+def classBm (name : String) : Nat := fillNamed false name 0
+
+/-- member that may be part of a run: `-`, `[`, `]` and `^` are placed separately -/
+def inRun (bm c : Nat) : Bool := bm.testBit c && c != 45 && c != 91 && c != 93 && c != 94
+
+/-- maximal runs `(lo, hi)` of run members, scanning `c, c+1, …` (`fuel` positions); `op` is the
+start of the run that is open at `c` -/
+def runsAux (bm : Nat) : Nat → Nat → Option Nat → List (Nat × Nat)
+  | 0, c, some lo => [(lo, c - 1)]
+  | 0, _, none => []
+  | f + 1, c, op =>
+    if inRun bm c then runsAux bm f (c + 1) (some (op.getD c))
+    else match op with
+      | some lo => (lo, c - 1) :: runsAux bm f (c + 1) none
+      | none => runsAux bm f (c + 1) none
+
+def runs (bm : Nat) : List (Nat × Nat) := runsAux bm 255 1 none
+
+/-- a run as text: one byte, or `lo-hi` -/
+def elemText (r : Nat × Nat) : List UInt8 :=
+  if r.1 = r.2 then [UInt8.ofNat r.1] else [UInt8.ofNat r.1, 45, UInt8.ofNat r.2]
+
+/-- the special members after the runs: `[` (never followed by `.`, `:` or `=` here), `^`
+(never first), `-` (last, so it is a literal) -/
+def listingPost (bm : Nat) : List UInt8 :=
+  (if bm.testBit 91 then [91] else []) ++ (if bm.testBit 94 then [94] else []) ++
+  (if bm.testBit 45 then [45] else [])
+
+/-- members of a bracket expression as text: `]` first, then the runs in increasing order,
+then `[`, `^`, and `-` last -/
+def listing (bm : Nat) : List UInt8 :=
+  (if bm.testBit 93 then [93] else []) ++ ((runs bm).flatMap elemText ++ listingPost bm)
+
+/-- the bitmap `op_class` accumulates while reading `listing bm` (starting from `acc`) -/
+def addRuns (icase : Bool) (acc : Nat) (rs : List (Nat × Nat)) : Nat :=
+  rs.foldl (fun a r => addRange icase (r.2 + 1 - r.1) r.1 a) acc
+
+def addPost (icase : Bool) (acc bm : Nat) : Nat :=
+  let a3 := if bm.testBit 91 then addChar icase acc 91 else acc
+  let a4 := if bm.testBit 94 then addChar icase a3 94 else a3
+  if bm.testBit 45 then addChar icase a4 45 else a4
+
+def listingBm (icase : Bool) (acc bm : Nat) : Nat :=
+  addPost icase (addRuns icase (if bm.testBit 93 then addChar icase acc 93 else acc) (runs bm)) bm
+
+/-- complement within bytes 1..255 -/
+def complBm (bm : Nat) : Nat := bm ^^^ (2 ^ 256 - 2)
+
+/-- how a bitmap is written -/
+inductive ClsForm where
+  | named (name : String) (bytes : List UInt8)
+  | negNamed (name : String) (bytes : List UInt8)
+  | negList          -- `[^…]` listing the complement: the empty class and the class `{^}`
+  | dashCaret        -- the class `{-, ^}` is written `[-^]`
+  | posList
+  deriving Repr
+
+def clsForm (bm : Nat) : ClsForm :=
+  match Gen.C04.classTable.find? (fun p => classBm p.1 == bm) with
+  | some p => .named p.1 p.2
+  | none =>
+    match Gen.C04.classTable.find? (fun p => negate (classBm p.1) == bm) with
+    | some p => .negNamed p.1 p.2
+    | none =>
+      if bm = 0 ∨ bm = 2 ^ 94 then .negList
+      else if bm = 2 ^ 45 + 2 ^ 94 then .dashCaret
+      else .posList
+
+/-- the text after the opening `[` up to and including the closing `]` -/
+def clsBody (bm : Nat) : List UInt8 :=
+  match clsForm bm with
+  | .named _ bytes => [91, 58] ++ bytes ++ [58, 93, 93]
+  | .negNamed _ bytes => [94, 91, 58] ++ bytes ++ [58, 93, 93]
+  | .negList => [94] ++ listing (complBm bm) ++ [93]
+  | .dashCaret => [45, 94, 93]
+  | .posList => listing bm ++ [93]
+
+def renderCls (bm : Nat) : List UInt8 := 91 :: clsBody bm
+
+/-- what `regcomp` stores for the text `renderCls bm` under the flags: identity without flags -/
+def normCls (fl : PFlags) (bm : Nat) : Nat :=
+  match clsForm bm with
+  | .named name _ => fillNamed fl.icase name 0
+  | .negNamed name _ => negate (fillNamed fl.icase name (if fl.newline then setBit 0 10 else 0))
+  | .negList => bm
+  | .dashCaret => bm
+  | .posList => listingBm fl.icase 0 bm
+
+/-- ERE text of a tree. -/
 def renderERE : Re → List UInt8
   | .empty => []
   | .chr c => if specialE c then [92, c] else [c]
   | .any => [46]
-  | .cls _ => [91, 93]
+  | .cls bm => renderCls bm
   | .bol => [94]
   | .eol => [36]
   | .cat a b => renderERE a ++ renderERE b
@@ -472,7 +560,7 @@ def renderBRE : Re → List UInt8
   | .empty => []
   | .chr c => if specialB c then [92, c] else [c]
   | .any => [46]
-  | .cls _ => [91, 93]
+  | .cls bm => renderCls bm
   | .bol => [94]
   | .eol => [36]
   | .cat a b => renderBRE a ++ renderBRE b
@@ -495,8 +583,8 @@ def countOk (m : Nat) (n : Option Nat) : Bool :=
 
 /-- `wfL lvl r`: `r` is expressible at grammar level `lvl` without inserting groups
 (0 = item of a branch, 1 = branch = right-nested concatenation of items, 2 = alternation of
-branches, 3 = group body = empty or alternation).  Bracket expressions are excluded (see
-`renderERE`). -/
+branches, 3 = group body = empty or alternation).  A bracket expression is any bitmap over the
+bytes 1..255. -/
 def wfL : Nat → Re → Bool
   | lvl, .empty => lvl == 3
   | lvl, .alt a b => decide (2 ≤ lvl) && wfL 1 a && wfL 2 b
@@ -505,12 +593,11 @@ def wfL : Nat → Re → Bool
   | _, .any => true
   | _, .bol => true
   | _, .eol => true
-  | _, .cls _ => false
+  | _, .cls bm => decide (bm < 2 ^ 256) && !bm.testBit 0
   | _, .rep r m n => r.isAtom && wfL 0 r && countOk m n
   | _, .group r => wfL 3 r
 
-/-- ERE fragment of `parse_render_ere_partial`: no bracket expressions, fewer than
-`MAX_GROUPS` groups, not the empty pattern -/
+/-- the ERE trees of `parse_render_ere`: parser shape, fewer than `MAX_GROUPS` groups -/
 def wfE (r : Re) : Bool := wfL 2 r && decide (r.groups + 1 < Gen.C04.MAX_GROUPS)
 
 /-- BRE counterpart of `wfL`: no alternation (strict BRE has none); `^` is an anchor only as
@@ -523,16 +610,17 @@ def wfBL : Nat → Bool → Bool → Re → Bool
   | _, _, _, .any => true
   | _, first, _, .bol => first
   | _, _, last, .eol => last
-  | _, _, _, .cls _ => false
+  | _, _, _, .cls bm => decide (bm < 2 ^ 256) && !bm.testBit 0
   | _, _, _, .rep r m n => r.isAtom && wfBL 0 false false r && countOk m n
   | _, _, _, .group r => wfBL 3 true true r
 
-/-- BRE fragment of `parse_render_bre_partial` -/
+/-- the BRE trees of `parse_render_bre` -/
 def wfB (r : Re) : Bool := wfBL 1 true true r && decide (r.groups + 1 < Gen.C04.MAX_GROUPS)
 
 /-- what `regcomp` stores for a tree: literals folded under `REG_ICASE` -/
 def foldRe (fl : PFlags) : Re → Re
   | .chr c => .chr (foldc fl c)
+  | .cls bm => .cls (normCls fl bm)
   | .cat a b => .cat (foldRe fl a) (foldRe fl b)
   | .alt a b => .alt (foldRe fl a) (foldRe fl b)
   | .rep r m n => .rep (foldRe fl r) m n
